@@ -128,7 +128,10 @@ def systematic_cases(insts, rng, tier):
 
 def random_cases(insts, rng, count, nmax):
     cases = []
-    light = [j for j in insts]
+    groups = {}
+    for j in insts:
+        groups.setdefault((j["c"]["ch"], len(j["c"]["w"])), []).append(j)
+    gkeys = sorted(groups)
     kinds = ["g1", "r1", "g2", "r2", "g3", "adj", "ctrl", "p3", "prot", "mrz"]
     while len(cases) < count:
         n = rng.choice([1, 2, 2, 3, 3, 3] + ([4] if nmax >= 4 else []))
@@ -136,7 +139,7 @@ def random_cases(insts, rng, count, nmax):
         ops, budget, nch = [], 2 * 10 ** 5, 0
         for _ in range(L):
             if rng.random() < 0.4 and nch < 3:
-                j = rng.choice(light)
+                j = rng.choice(groups[rng.choice(gkeys)])          # channel class first, then a grid point
                 k = len(j["c"]["w"])
                 if k > n or den_weight(j) > budget:
                     continue
@@ -319,3 +322,12 @@ def run(tier, seed):
         "Hermiticity / unit trace are exact on the reference (TLC invariant Physical); for default.mixed's float output Hermiticity, trace and "
         "positive semidefiniteness are numeric checks at 1e-8 (bridged)",
         "gate angles on the lattice pi/4; float comparison at 1e-8 against exact values"])
+
+
+def replay(path, tier, seed):
+    """Re-run the (deterministic) check for the recorded tier/seed and keep the violations with the recorded key."""
+    from pathlib import Path
+    rec_ = json.loads(Path(path).read_text())
+    res = run(tier, seed)
+    res.violations = [v for v in res.violations if v.key == rec_.get("key")]
+    return res
